@@ -40,7 +40,7 @@ Theorem C09_exactly_once_if_kept :
   forall R, good R -> forall i k c, keeps_conn R i k c ->
   forall w s args m w',
     winv w -> lookup (w_sigs w) s = Some (Some i) -> get_impl w i = Some m -> i_emitting m = false ->
-    g_get (i_conns m) k = Some c -> c_blocked c = false -> (forall e, c_kind c <> KDeferred e) ->
+    g_get (i_conns m) k = Some c -> c_blocked c = false -> c_tbd c = false -> (forall e, c_kind c <> KDeferred e) ->
     sig_emit R w s args = (w', None) ->
     exists l, w_trace w' = l ++ w_trace w /\ In k (dkeys i l) /\ NoDup (dkeys i l).
 Proof. exact emit_exactly_once_if_kept. Qed.
@@ -62,11 +62,27 @@ Theorem C09_invariant_reachable : forall tbl pass_fuel fuel ops, winv (run tbl p
 Proof. exact run_winv. Qed.
 Print Assumptions C09_invariant_reachable.
 
-(* non-vacuity: slot 100 disconnects everything, slot 101 (later in the walk) still runs once, then both are gone *)
+(* a connection disconnected EARLIER IN THE SAME EMISSION - by another slot, by a scoped connection expiring, by the destruction of whatever
+   owned it - is not invoked any more when the walk reaches it (its entry is still there, marked, until the emission ends): fix F12 *)
+Theorem C09_disconnected_earlier_in_the_emission_is_skipped :
+  forall R w i args x r m k c,
+    get_impl w i = Some m -> g_indexAt (i_conns m) x = Some k -> g_get (i_conns m) k = Some c -> c_tbd c = true ->
+    walk R w i args (x :: r) = walk R w i args r.
+Proof. exact walk_marked_skipped. Qed.
+Print Assumptions C09_disconnected_earlier_in_the_emission_is_skipped.
+
+(* non-vacuity: slot 100 disconnects everything: slot 101, later in the walk, is as good as gone and is not invoked any more (its entry is
+   only marked until the emission ends - fix F12: whoever disconnected it may have destroyed what the slot refers to); afterwards both
+   connections are gone *)
 Example C09_example :
   let tbl := fun sid => match sid with 1 => [ODiscAll 0] | _ => [] end in
   let w := run tbl 8 4 [OSigNew 0 1; OConnect 0 0 100 1 [] 1; OConnect 0 1 101 1 [] 0; OEmit 0 [7%Z]; OActive 1] in
-  firstn 5 (w_trace w) = [EvDone None; EvBool false; EvDone None;
-                          EvSlot (Some (0, {| gi_index := 1; gi_gen := 0 |})) true 101 [7%Z];
-                          EvSlot (Some (0, {| gi_index := 0; gi_gen := 0 |})) true 100 [7%Z]].
-Proof. vm_compute. reflexivity. Qed.
+  firstn 4 (w_trace w) = [EvDone None; EvBool false; EvDone None;
+                          EvSlot (Some (0, {| gi_index := 0; gi_gen := 0 |})) true 100 [7%Z]] /\
+  (* a slot that disconnects only ITSELF does not stop the later ones *)
+  let tbl2 := fun sid => match sid with 1 => [ODiscH 0] | _ => [] end in
+  let w2 := run tbl2 8 4 [OSigNew 0 1; OHNew 0; OHNew 1; OConnect 0 0 100 1 [] 1; OConnect 0 1 101 1 [] 0; OEmit 0 [7%Z]] in
+  firstn 3 (w_trace w2) = [EvDone None;
+                           EvSlot (Some (0, {| gi_index := 1; gi_gen := 0 |})) true 101 [7%Z];
+                           EvSlot (Some (0, {| gi_index := 0; gi_gen := 0 |})) true 100 [7%Z]].
+Proof. vm_compute. split; reflexivity. Qed.
